@@ -57,7 +57,8 @@ def run_segment(ld, n, cdir, ops, sleep=0.0, handles=None):
     import shutil as _sh
     old_du = _sh.disk_usage
     if (n + len(ops)) % 3 == 0:
-        _sh.disk_usage = lambda path: collections.namedtuple('usage', 'total used free')(100 * 2 ** 30, 97 * 2 ** 30, 3 * 2 ** 30)
+        free = [3 * 2 ** 30, 2 ** 30, 5 * 2 ** 30 - 1, 5 * 2 ** 30][(n + 2 * len(ops)) % 4]       # warn-and-store band incl. both of its ends
+        _sh.disk_usage = lambda path: collections.namedtuple('usage', 'total used free')(100 * 2 ** 30, 100 * 2 ** 30 - free, free)
     try:
         return _run_segment(ld, n, cdir, ops, fn, calls, handles, outs)
     finally:
@@ -126,6 +127,8 @@ def run_history(ld, n, segments, workdir):
     """segments: list of op lists; every segment but the last ends with a REAL kill -9 of the process that ran it.
     Handle numbers are global over the history (as in the model)."""
     cdir = os.path.join(workdir, 'cache')
+    if (n + sum(len(x) for x in segments)) % 4 == 0:
+        os.makedirs(cdir)            # the directory may exist already, as long as it is empty
     outs_all = []
     offset = 0
     calls = [0] * n
